@@ -147,7 +147,21 @@ def fit_into_array(
     return output
 
 
-@lru_cache(maxsize=128)  # One must add parameter 'maxsize' for Python 3.7
+def _get_file_signature(filename: str | Path) -> tuple[int, int] | None:
+    """Get the modification time (in ns) and the size of a local file.
+
+    Returns ``None`` when this information is not available (e.g. for a remote file).
+    """
+    from pyxel.util import resolve_with_working_directory
+
+    try:
+        stat_result = Path(resolve_with_working_directory(filename)).stat()
+    except (OSError, ValueError):
+        return None
+
+    return stat_result.st_mtime_ns, stat_result.st_size
+
+
 def load_cropped_and_aligned_image(
     shape: tuple[int, ...],
     filename: str | Path,
@@ -157,6 +171,34 @@ def load_cropped_and_aligned_image(
         Literal["center", "top_left", "top_right", "bottom_left", "bottom_right"] | None
     ) = None,
     allow_smaller_array: bool = True,
+) -> np.ndarray:
+    """Load image from file and fit to detector shape.
+
+    The result is cached. The modification time and the size of the file are part
+    of the cache key: a file that has been modified is read again.
+    """
+    return _load_cropped_and_aligned_image(
+        shape=shape,
+        filename=filename,
+        position_x=position_x,
+        position_y=position_y,
+        align=align,
+        allow_smaller_array=allow_smaller_array,
+        file_signature=_get_file_signature(filename),
+    )
+
+
+@lru_cache(maxsize=128)  # One must add parameter 'maxsize' for Python 3.7
+def _load_cropped_and_aligned_image(
+    shape: tuple[int, ...],
+    filename: str | Path,
+    position_x: int = 0,
+    position_y: int = 0,
+    align: (
+        Literal["center", "top_left", "top_right", "bottom_left", "bottom_right"] | None
+    ) = None,
+    allow_smaller_array: bool = True,
+    file_signature: tuple[int, int] | None = None,
 ) -> np.ndarray:
     """Load image from file and fit to detector shape.
 
